@@ -32,6 +32,10 @@ def main():
             lps.append(lpgen.gen_random(r, nmax))
         else:
             lps.append(lpgen.gen_lp(r, nmax))
+    # LPs the simplifier removes completely or nearly so (column singleton combined with a doubleton equation, forcing rows): their
+    # OPTIMAL answers come straight out of the post-solve steps (_storeSolutionRealFromPresol) and are judged like all others
+    lps += lpgen.gen_singleton_equations(r, 48 if ck.tier == "quick" else 288)
+    lps += lpgen.gen_forcing_rows(r, 24 if ck.tier == "quick" else 192)
     corpus = lpgen.load_corpus("C01")
     if ck.args.replay:
         import json
